@@ -54,6 +54,9 @@ type RedisOutput struct {
 	bisyncMissGuard sync.RWMutex
 	bisyncMissRunID string
 
+	// the target database the position in checkpointInMem was reached in
+	checkpointInMemDb int
+
 	outFilter *filter.RedisKeyFilter
 
 	newRedisConn          func(context.Context) (client.Redis, error)
@@ -633,6 +636,7 @@ func (ro *RedisOutput) setCheckpoint(ctx context.Context, runId string, offset i
 	if !ro.cfg.EnableResumeFromBreakPoint {
 		ro.cpGuard.Lock()
 		ro.checkpointInMem = *checkpointKv
+		ro.checkpointInMemDb = 0
 		ro.cpGuard.Unlock()
 		return nil
 	}
@@ -654,6 +658,7 @@ func (ro *RedisOutput) invalidateCheckpoint(ctx context.Context, runId string) e
 	if !ro.cfg.EnableResumeFromBreakPoint {
 		ro.cpGuard.Lock()
 		ro.checkpointInMem = checkpoint.CheckpointInfo{Key: ro.cfg.CheckpointName, RunId: "?", Offset: -1}
+		ro.checkpointInMemDb = 0
 		ro.cpGuard.Unlock()
 		return nil
 	}
@@ -942,11 +947,20 @@ func (ro *RedisOutput) StartPoint(ctx context.Context, runIds []string) (sp Star
 	}, nil
 }
 
+// keepPositionInMemory is the resume point of a replay that stores none on the target : where a
+// re-established source link continues, and in which target database.
+func (ro *RedisOutput) keepPositionInMemory(offset int64, db int) {
+	ro.cpGuard.Lock()
+	ro.checkpointInMem.Offset = offset
+	ro.checkpointInMemDb = db
+	ro.cpGuard.Unlock()
+}
+
 func (ro *RedisOutput) checkpoint(ctx context.Context, runIds []string) (cpi *checkpoint.CheckpointInfo, dbid int, err error) {
 	if !ro.cfg.EnableResumeFromBreakPoint {
 		ro.cpGuard.RLock()
 		defer ro.cpGuard.RUnlock()
-		return &ro.checkpointInMem, 0, nil
+		return &ro.checkpointInMem, ro.checkpointInMemDb, nil
 	}
 
 	cli, err := ro.NewRedisConn(ctx)
@@ -1046,6 +1060,10 @@ func (ro *RedisOutput) sendCmdsBatch(replayWait usync.WaitCloser, conn client.Re
 		}, func(i interface{}) { replayWait.Close(fmt.Errorf("panic : %v", i)) })
 	}
 
+	// the target database of the last command taken from sendBuf : a position kept in memory is
+	// resumed on a fresh connection, which has to be switched to it first
+	lastDb := ro.startDbId
+
 	sendFuncOnce := func(shouldInTransaction, shouldUpdateCP bool, lastOffset int64) error {
 		if len(cmdQueue) == 0 && shouldInTransaction && !shouldUpdateCP {
 			return nil
@@ -1081,9 +1099,7 @@ func (ro *RedisOutput) sendCmdsBatch(replayWait usync.WaitCloser, conn client.Re
 				// the stale checkpoint GC) is an undefined start point that shadows the good ones
 				batcher.Put("hset", checkpointKv.Key, checkpointKv.RunIdKey(), runId, checkpointKv.VersionKey(), config.Version, checkpointKv.OffsetKey(), lastOffset)
 			} else {
-				ro.cpGuard.Lock()
-				ro.checkpointInMem.Offset = lastOffset
-				ro.cpGuard.Unlock()
+				ro.keepPositionInMemory(lastOffset, lastDb)
 			}
 		}
 
@@ -1195,6 +1211,9 @@ func (ro *RedisOutput) sendCmdsBatch(replayWait usync.WaitCloser, conn client.Re
 
 			prevOffset := lastOffset
 			lastOffset = item.Offset
+			if item.Db >= 0 {
+				lastDb = item.Db
+			}
 			if item.Cmd == "ping" { // skip ping command, keepaliveTicker handle it[multi/exec, ping issue for cluster]
 				continue
 			}
